@@ -111,6 +111,8 @@ pub enum Fault {
     Pipe { at: u64, err: ErrKind },
     /// the `at`-th write on a real file fails once
     FileWrite { at: u64, err: ErrKind },
+    /// the `at`-th read on a real file fails once
+    FileRead { at: u64, err: ErrKind },
     /// the `at`-th read on simulated stdin returns EINTR once (BufRead::read_line retries)
     StdinEintr { at: u64 },
     /// the `at`-th read on simulated stdin fails with EIO (probe only)
@@ -281,6 +283,7 @@ pub struct World {
     pub opens: u64,
     pub pipe_calls: u64,
     pub file_writes: u64,
+    pub file_reads: u64,
     pub pending_threads: usize,
     pub stats: Stats,
     pub pct_points: Vec<u64>,
@@ -322,6 +325,7 @@ impl World {
             opens: 0,
             pipe_calls: 0,
             file_writes: 0,
+            file_reads: 0,
             pending_threads: 0,
             stats: Stats::default(),
             pct_points: vec![],
@@ -1077,6 +1081,21 @@ pub fn io_point(kind: &'static str, is_write: bool, len: usize) -> Option<io::Er
     let me = my_pid()?;
     if switch(me, St::Runnable, OP_FILE, is_write as u64, len as u64).is_err() {
         return Some(io::Error::other("simulation aborted"));
+    }
+    if !is_write && kind == "file" {
+        let mut g = lock();
+        let w = g.as_mut().unwrap();
+        let k = w.file_reads;
+        w.file_reads += 1;
+        for f in &w.cfg.faults {
+            if let Fault::FileRead { at, err } = f {
+                if *at == k {
+                    let e = err.to_io();
+                    w.stats.fire("file_read_fail");
+                    return Some(e);
+                }
+            }
+        }
     }
     if is_write && kind == "file" {
         let mut g = lock();
